@@ -15,6 +15,14 @@ tree / schema digest AND that equals the tree the layout was built to produce
 (decoy files with other contents sit at every other place a wrong join could
 land); reported URLs are 'file:///' URLs of the right files; '#frag' references
 are refused.
+
+Wave 2 axes of part (b): (i) the SPELLING of the references inside the files
+(vz/ref/refspell.py: percent-encoded with upper- / lower-case hex digits, written
+literally, and the two alternating mixes, de-duplicated by the text that ends up
+in the file), (ii) the spelling of the top-level file: URL (pathname2url form,
+verbatim path after 'file://', single-slash 'file:/...', everything
+percent-encoded with lower-case hex digits), (iii) directory name and file stem
+varying independently (every ordered pair of different names).
 """
 import io
 import itertools
@@ -24,6 +32,7 @@ import tempfile
 
 from vz import core
 from vz.ref import urls as R
+from vz.ref import refspell as S
 
 PROP = "C18"
 
@@ -170,8 +179,17 @@ KINDS = ["include", "src", "extends"]
 HOPS = {"same": 0, "sub": 1, "parent": -1}
 MAXDEPTH = 3
 CWDS = ["root", "sub", "outside"]
-WAYS = ["abspath", "relpath", "fileurl", "fileobj-abs", "fileobj-rel"]
+WAYS = ["abspath", "relpath", "fileurl", "fileurl-raw", "fileurl-1slash", "fileurl-lower",
+        "fileobj-abs", "fileobj-rel"]
+# ways in which the CALLER wrote characters literally into a URL: ZConfig is not asked to
+# re-encode them, so URLs derived from them are judged for form and target only
+LITERAL_WAYS = ("fileurl-raw",)
 ROLES = ["top", "mid", "leaf"]
+MODES = S.MODES                      # spellings of the references inside the files
+BASE_MODE = MODES[0]                 # 'pct-upper': what the check wrote before wave 2
+VARIANTS = ("good", "bad-leaf", "frag-ref", "frag-top")
+EXTRA_MODE_VARIANTS = ("good", "frag-ref")       # variants run for every further spelling
+PAIR_TOP_DEPTH = 1                   # quick tier: layouts used for (directory name != file stem)
 
 
 def names(maxlen):
@@ -211,6 +229,8 @@ CONFIG_SCHEMA = """<schema>
 def contents(kind, role, real, depth, ref, variant):
     """Text of one file.  `ref` is the (quoted, relative) reference to the next file."""
     tag = role if real else "DECOY-%s-%d" % (role, depth)
+    if kind != "include" and ref is not None:
+        ref = ref.replace("&", "&amp;")       # XML attribute syntax, not URL syntax
     if kind == "include":
         if role == "top":
             return "k %s\n%%include %s\n" % (tag, ref) if real else "k %s\n" % tag
@@ -271,14 +291,16 @@ BEHAVIOUR_CONFIG = {"src": "<tmid m/>\n<tleaf l/>\n", "extends": ""}
 
 
 class Tree:
-    """The scratch tree of one name: T, T/n, T/n/n, T/n/n/n and an outside directory."""
+    """The scratch tree of one name: T, T/d, T/d/d, T/d/d/d and an outside directory; the
+    files are n.top, n.mid, n.leaf in every directory.  d = n unless `dname` is given."""
 
-    def __init__(self, base, name):
+    def __init__(self, base, name, dname=None):
         self.name = name
+        self.dname = name if dname is None else dname
         self.T = os.path.join(base, "T")
         self.dirs = [self.T]
         for _ in range(MAXDEPTH):
-            self.dirs.append(os.path.join(self.dirs[-1], name))
+            self.dirs.append(os.path.join(self.dirs[-1], self.dname))
         self.outside = os.path.join(base, "O", "o")
         os.makedirs(self.dirs[-1])
         os.makedirs(self.outside)
@@ -289,23 +311,29 @@ class Tree:
     def cwd(self, which):
         return {"root": self.T, "sub": self.dirs[1], "outside": self.outside}[which]
 
-    def ref(self, hop, role, frag=""):
-        fn = R.quote_path(self.name + "." + role)
+    def ref(self, hop, role, frag="", mode=BASE_MODE):
+        fn = self.name + "." + role
         if hop == "same":
             r = fn
         elif hop == "sub":
-            r = R.quote_path(self.name) + "/" + fn
+            r = self.dname + "/" + fn
         else:
             r = "../" + fn
-        return r + frag
+        if mode == BASE_MODE:
+            return R.quote_path(r) + frag
+        return S.spell(r, mode) + frag
 
-    def write(self, kind, layout, variant):
+    def refs(self, layout, mode, frag=""):
+        return {"top": self.ref(layout[1], "mid", mode=mode),
+                "mid": self.ref(layout[2], "leaf", frag, mode=mode), "leaf": None}
+
+    def write(self, kind, layout, variant, mode=BASE_MODE):
         t, h1, h2 = layout
         d1 = t + HOPS[h1]
         d2 = d1 + HOPS[h2]
         real = {"top": t, "mid": d1, "leaf": d2}
         frag = "#frag" if variant == "frag-ref" else ""
-        refs = {"top": self.ref(h1, "mid"), "mid": self.ref(h2, "leaf", frag), "leaf": None}
+        refs = self.refs(layout, mode, frag)
         for role in ROLES:
             for depth in range(MAXDEPTH + 1):
                 with open(self.path(role, depth), "w", encoding="utf-8") as f:
@@ -405,7 +433,32 @@ def naming(way, top, cwd):
         return top
     if way in ("relpath", "fileobj-rel"):
         return os.path.relpath(top, cwd)
-    return "file://" + pathname2url(top)
+    if way == "fileurl":
+        return "file://" + pathname2url(top)
+    if way == "fileurl-raw":                       # the path verbatim
+        return "file://" + top
+    if way == "fileurl-1slash":                    # has to be normalised to 'file:///'
+        return "file:" + pathname2url(top)
+    if way == "fileurl-lower":                     # everything but unreserved, lower-case hex
+        return "file://" + S.spell(top, "pct-lower")
+    raise core.HarnessError("unknown way %r" % (way,))
+
+
+def judge_url(url, path, way, mode=BASE_MODE):
+    """`url` must be the 'file:///' URL of `path`; strictly (nothing that needs encoding
+    stays literal) unless the caller itself wrote literal characters (way / spelling)."""
+    if way in LITERAL_WAYS or mode not in ("pct-upper", "pct-lower"):
+        return S.judge_file_url_of_path_lenient(url, path)
+    return R.judge_file_url_of_path(url, path)
+
+
+def err_key(val):
+    """Error description modulo the spelling of the URL."""
+    u = val.get("url")
+    if isinstance(u, str):
+        d, problem = S.decode_lenient(u)
+        u = d if problem is None else u
+    return (val.get("class"), u, val.get("lineno"))
 
 
 def err_desc(e):
@@ -441,26 +494,65 @@ def load(kind, way, top, cwd, cfg_schema, suffix=""):
         return ("internal", core.exc_desc(e), None)
 
 
-def check_state(tree, kind, layout, cwdk, acc, cfg_schema, variants=("good", "bad-leaf", "frag-ref", "frag-top")):
-    """One (layout, name, cwd) state: every way of naming the top resource, for the
-    good tree, a failing leaf, a '#frag' reference and a '#frag' top-level name."""
+def quotable(name):
+    return R.needs_quoting(name)
+
+
+def name_feature(name):
+    """Coarse class of a name for violation signatures."""
+    f = []
+    if any(ord(c) > 127 for c in name):
+        f.append("non-ascii")
+    if " " in name:
+        f.append("space")
+    if any(c in "+&;[]" for c in name):
+        f.append("delim")
+    return "+".join(f) or "plain"
+
+
+def mode_plan(tree, layout, modes):
+    """The spellings that put a DIFFERENT text into the files of this state, in order
+    (a mode whose two references read exactly like those of an earlier mode is the same
+    case and is not run again)."""
+    seen = set()
+    plan = []
+    for mode in modes:
+        texts = (tree.ref(layout[1], "mid", mode=mode), tree.ref(layout[2], "leaf", mode=mode))
+        if texts in seen:
+            continue
+        seen.add(texts)
+        plan.append(mode)
+    return plan
+
+
+def check_state(tree, kind, layout, cwdk, acc, cfg_schema, variants=VARIANTS, modes=MODES,
+                extra_variants=EXTRA_MODE_VARIANTS):
+    """One (layout, names, cwd) state: for every distinct spelling of the references, every
+    way of naming the top resource; the first spelling for the good tree, a failing leaf,
+    a '#frag' reference and a '#frag' top-level name, the others for `extra_variants`."""
     name = tree.name
     case0 = {"part": "b", "kind": kind, "layout": list(layout), "name": name, "cwd": cwdk}
+    if tree.dname != name:
+        case0["dname"] = tree.dname
     acc.current = case0
     acc.ev()
     acc.states += 1
-    if R.needs_quoting(name):
+    nontrivial = quotable(name) or quotable(tree.dname)
+    if nontrivial:
         acc.nt()
-    feature = "quoted-char" if R.needs_quoting(name) else "plain"
+    feature = "quoted-char" if nontrivial else "plain"
     cwd = tree.cwd(cwdk)
     old = os.getcwd()
+    t, h1, h2 = layout
+    # directories (relative to T) that contain the two referring files
+    dir_above = {"top": t, "mid": t + HOPS[h1]}
 
     pending = {}
 
     def viol(kind_, variant, way, observed, expected):
         pending.setdefault((kind_, variant), []).append((way, observed, expected))
 
-    def flush(ways_used):
+    def flush(ways_used, mode):
         # one violation per (kind, variant); the tag says which ways of naming fail
         for (kind_, variant), items in sorted(pending.items()):
             failing = sorted({w for w, _o, _e in items})
@@ -473,60 +565,84 @@ def check_state(tree, kind, layout, cwdk, acc, cfg_schema, variants=("good", "ba
             else:
                 wcls = "mixed:" + "+".join(failing)
             way, observed, expected = items[0]
-            acc.violation(kind_, dict(case0, variant=variant, way=way, failing_ways=failing),
-                          observed, expected,
-                          tags={"kind": kind_, "ref": kind, "variant": variant, "ways": wcls,
-                                "name-feature": feature})
+            tags = {"kind": kind_, "ref": kind, "variant": variant, "ways": wcls,
+                    "name-feature": feature, "spelling": mode,
+                    "names": name_feature(name) if tree.dname == name else
+                    "dir:%s/file:%s" % (name_feature(tree.dname), name_feature(name))}
+            acc.violation(kind_, dict(case0, variant=variant, way=way, failing_ways=failing, spelling=mode,
+                                      ref_top_to_mid=tree.ref(h1, "mid", mode=mode),
+                                      ref_mid_to_leaf=tree.ref(h2, "leaf", mode=mode)),
+                          observed, expected, tags=tags)
         pending.clear()
 
     try:
-        for variant in variants:
-            if variant == "frag-top":
-                real = tree.write(kind, layout, "good")
-            else:
-                real = tree.write(kind, layout, variant)
-            top = tree.path("top", real["top"])
-            leaf = tree.path("leaf", real["leaf"])
-            os.chdir(cwd)
-            results = {}
-            ways = WAYS if variant != "frag-top" else ["abspath", "relpath", "fileurl"]
-            for way in ways:
-                results[way] = load(kind, way, top, cwd, cfg_schema,
-                                    "#frag" if variant == "frag-top" else "")
-                acc.transitions += 1
-                acc.traces += 1
-            os.chdir(old)
-            for way in ways:
-                st, val, url = results[way]
-                acc.cls("b:%s:%s:%s" % (kind, variant, st if st != "config-error" else val["class"]))
-                if st == "ok" and kind != "include":
-                    # observation, not part of the verdict: see tools/notes/C18.md
-                    for pu in val.pop("#position-urls"):
-                        if not (isinstance(pu, str) and pu.startswith("file:///")):
-                            acc.extra["b:obs:default-position-url-not-a-file-url:" + way] += 1
-                if st == "internal":
-                    viol("internal-error", variant, way, val, "result or ConfigurationError")
-            if any(results[w][0] == "internal" for w in ways):
-                flush(ways)
-                continue
-            if variant == "good":
-                _judge_good(kind, results, top, viol, acc)
-            elif variant == "bad-leaf":
-                _judge_bad_leaf(kind, results, leaf, viol, acc)
-            else:
+        plan = mode_plan(tree, layout, modes)
+        for mode in plan:
+            base = mode == BASE_MODE
+            mtag = "" if base else "[%s]" % mode
+            acc.extra["b:spelling:" + mode] += 1
+            reftexts = tree.refs(layout, mode)
+            # the cross the wave-2 seeds live in: a literally written non-ASCII reference in a file
+            # whose own URL has percent-encoded parts
+            cross = any(S.has_literal_nonascii(reftexts[r]) and dir_above[r] > 0 and quotable(tree.dname)
+                        for r in ("top", "mid"))
+            mixed = any(S.has_literal_nonascii(reftexts[r]) and S.has_pct(reftexts[r]) for r in ("top", "mid"))
+            for variant in (variants if base else extra_variants):
+                if variant == "frag-top":
+                    real = tree.write(kind, layout, "good", mode)
+                else:
+                    real = tree.write(kind, layout, variant, mode)
+                top = tree.path("top", real["top"])
+                leaf = tree.path("leaf", real["leaf"])
+                os.chdir(cwd)
+                results = {}
+                ways = WAYS if variant != "frag-top" else [w for w in WAYS if not w.startswith("fileobj")]
                 for way in ways:
-                    if results[way][0] != "config-error":
-                        viol("fragment-accepted", variant, way, results[way][:2],
-                             "ConfigurationError / SchemaError")
-                acc.clause("b:fragment-rejected")
-            flush(ways)
-        acc.sample(lambda: dict(case0, ref_top_to_mid=tree.ref(layout[1], "mid"),
-                                ref_mid_to_leaf=tree.ref(layout[2], "leaf")))
+                    results[way] = load(kind, way, top, cwd, cfg_schema,
+                                        "#frag" if variant == "frag-top" else "")
+                    acc.transitions += 1
+                    acc.traces += 1
+                os.chdir(old)
+                for way in ways:
+                    st, val, url = results[way]
+                    acc.cls("b:%s:%s%s:%s" % (kind, variant, mtag, st if st != "config-error" else val["class"]))
+                    if st == "ok" and kind != "include":
+                        # observation, not part of the verdict: see tools/notes/C18.md
+                        for pu in val.pop("#position-urls"):
+                            if not (isinstance(pu, str) and pu.startswith("file:///")):
+                                acc.extra["b:obs:default-position-url-not-a-file-url:" + way] += 1
+                    if st == "ok" and variant == "good":
+                        acc.extra["b:ok:way:" + way] += 1
+                        if cross:
+                            acc.extra["b:ok:literal-non-ascii-ref-in-file-below-encoded-dir"] += 1
+                        if mixed:
+                            acc.extra["b:ok:ref-mixing-literal-non-ascii-and-pct"] += 1
+                        if tree.dname != name:
+                            acc.extra["b:ok:dir-name-differs-from-file-stem"] += 1
+                    if st == "internal":
+                        viol("internal-error", variant, way, val, "result or ConfigurationError")
+                if any(results[w][0] == "internal" for w in ways):
+                    flush(ways, mode)
+                    continue
+                if variant == "good":
+                    _judge_good(kind, results, top, viol, acc, mode)
+                elif variant == "bad-leaf":
+                    _judge_bad_leaf(kind, results, leaf, viol, acc, mode)
+                else:
+                    for way in ways:
+                        if results[way][0] != "config-error":
+                            viol("fragment-accepted", variant, way, results[way][:2],
+                                 "ConfigurationError / SchemaError")
+                    acc.clause("b:fragment-rejected" + mtag)
+                flush(ways, mode)
+        acc.sample(lambda: dict(case0, spellings=plan,
+                                ref_top_to_mid=[tree.ref(h1, "mid", mode=m) for m in plan],
+                                ref_mid_to_leaf=[tree.ref(h2, "leaf", mode=m) for m in plan]))
     finally:
         os.chdir(old)
 
 
-def _judge_good(kind, results, top, viol, acc):
+def _judge_good(kind, results, top, viol, acc, mode=BASE_MODE):
     first = results[WAYS[0]]
     for way in WAYS:
         st, val, url = results[way]
@@ -543,17 +659,18 @@ def _judge_good(kind, results, top, viol, acc):
                 viol("wrong-resource", "good", way,
                      {"defaults": proj, "behaviour": val["behaviour"]},
                      {"defaults": EXPECTED_DEFAULTS[kind], "behaviour": EXPECTED[kind]})
-            v = R.judge_file_url_of_path(url, top)
+            # the URL of the top resource does not depend on how references are spelled
+            v = judge_url(url, top, way)
             if v:
                 viol("schema-url", "good", way, url, "'file:///' URL of the top file: " + v)
             elif first[0] == "ok" and url != first[2]:
                 acc.extra["b:schema-url-literal-differs-but-equivalent"] += 1
         if first[0] == "ok" and val != first[1]:
             viol("entry-points-differ", "good", way, val, first[1])
-    acc.clause("b:equal-and-expected")
+    acc.clause("b:equal-and-expected" + ("" if mode == BASE_MODE else "[%s]" % mode))
 
 
-def _judge_bad_leaf(kind, results, leaf, viol, acc):
+def _judge_bad_leaf(kind, results, leaf, viol, acc, mode=BASE_MODE):
     first = results[WAYS[0]]
     for way in WAYS:
         st, val, url = results[way]
@@ -563,13 +680,13 @@ def _judge_bad_leaf(kind, results, leaf, viol, acc):
         if val["url"] is None:
             acc.clause("b:error-without-url")
         else:
-            v = R.judge_file_url_of_path(val["url"], leaf)
+            v = judge_url(val["url"], leaf, way, mode)
             if v:
                 viol("error-url", "bad-leaf", way, val, "'file:///' URL of the failing file: " + v)
             acc.clause("b:error-url-is-file-url-of-leaf")
         if kind == "include" and (val["url"] is None or val["lineno"] != 2):
             viol("error-url", "bad-leaf", way, val, "url of the included file and line 2")
-        if first[0] == "config-error" and val != first[1]:
+        if first[0] == "config-error" and err_key(val) != err_key(first[1]):
             viol("entry-points-differ", "bad-leaf", way, val, first[1])
 
 
@@ -579,18 +696,29 @@ def config_schema():
 
 
 def shard_layouts(shard, acc):
-    root, idx, name, kinds = shard
-    base = os.path.join(root, "b%d" % idx)
-    tree = Tree(base, name)
+    """shard = (root, idx, name, kinds[, opts]); opts: dname (directory name, default = name),
+    layouts, cwds, modes, extra_variants."""
+    root, idx, name, kinds = shard[:4]
+    opts = shard[4] if len(shard) > 4 else {}
+    base = os.path.join(root, "%s%d" % (opts.get("prefix", "b"), idx))
+    tree = Tree(base, name, opts.get("dname"))
     cfg_schema = config_schema()
     try:
         for kind in kinds:
-            for layout in layouts():
-                for cwdk in CWDS:
-                    check_state(tree, kind, layout, cwdk, acc, cfg_schema)
+            for layout in opts.get("layouts") or layouts():
+                for cwdk in opts.get("cwds") or CWDS:
+                    check_state(tree, kind, layout, cwdk, acc, cfg_schema,
+                                variants=opts.get("variants", VARIANTS),
+                                modes=opts.get("modes", MODES),
+                                extra_variants=opts.get("extra_variants", EXTRA_MODE_VARIANTS))
     finally:
         shutil.rmtree(base, ignore_errors=True)
     return acc
+
+
+def name_pairs(nm):
+    """(directory name, file stem), the two different."""
+    return [(d, f) for d in nm for f in nm if d != f]
 
 
 # ---------------------------------------------------------------------------
@@ -602,7 +730,6 @@ def shard_layouts(shard, acc):
 def shard_extends_multi(shard, acc):
     import ZConfig
     from urllib.parse import quote
-    from urllib.request import pathname2url
     root, idx, name = shard
     base = tempfile.mkdtemp(prefix="m%d-" % idx, dir=root)
     old = os.getcwd()
@@ -639,16 +766,11 @@ def shard_extends_multi(shard, acc):
                     results = {}
                     for way in WAYS:
                         try:
-                            if way == "abspath":
-                                sch = ZConfig.loadSchema(top)
-                            elif way == "relpath":
-                                sch = ZConfig.loadSchema(os.path.relpath(top, cwd))
-                            elif way == "fileurl":
-                                sch = ZConfig.loadSchema("file://" + pathname2url(top))
-                            else:
-                                nm = top if way == "fileobj-abs" else os.path.relpath(top, cwd)
-                                with open(nm, encoding="utf-8") as fh:
+                            if way.startswith("fileobj"):
+                                with open(naming(way, top, cwd), encoding="utf-8") as fh:
                                     sch = ZConfig.loadSchemaFile(fh)
+                            else:
+                                sch = ZConfig.loadSchema(naming(way, top, cwd))
                             results[way] = tuple((k, sch.getinfo(k).getdefault().value) for k in ("kb1", "kb2", "ktop"))
                         except ZConfig.ConfigurationError as e:
                             results[way] = ("error", type(e).__name__, str(e).replace(base, "<scratch>")[:120])
@@ -680,6 +802,16 @@ def run(tier):
     namelen = 1 if tier == "quick" else 2
     nm = names(namelen)
     lay = layouts()
+    # (b2) directory name and file stem independent
+    pairs = name_pairs(names(1))
+    if tier == "quick":
+        pair_lay = [l for l in lay if l[0] == PAIR_TOP_DEPTH]
+        pair_cwds = ["root"]
+        pair_variants = ("good",)
+    else:
+        pair_lay = lay
+        pair_cwds = CWDS
+        pair_variants = ("good", "frag-ref")
     run = core.Run(
         PROP, tier, "exploration",
         rule="(a) every string of length <= %d over %r, plus 'file:' + every string of length <= %d "
@@ -688,17 +820,35 @@ def run(tier):
              "(reference kind in %r, layout, name, cwd): %d names of length <= %d over %r (minus '.', '..') "
              "used as directory name and file stem, %d chain layouts top->mid->leaf (depth of top 0..3, each "
              "hop same/sub/parent, all depths 0..3), cwd in %r; per state the ways %r of naming the top "
-             "resource, for the good tree, a failing leaf, a '#frag' reference and a '#frag' top name; "
-             "non-trivial = name with a character that must be percent-encoded.  (c) one schema extending TWO base "
+             "resource ('fileurl' = 'file://' + pathname2url(path), '-raw' = the path verbatim after 'file://', "
+             "'-1slash' = 'file:' + quoted path, '-lower' = everything but unreserved characters percent-encoded "
+             "with lower-case hex digits), for the good tree, a failing leaf, a '#frag' reference and a '#frag' top name; "
+             "AND per state every spelling in %r of the two references inside the files that yields a different text "
+             "(vz/ref/refspell.py: every character that is not RFC 3986 unreserved percent-encoded with upper-case / "
+             "lower-case hex digits, written literally - XML-escaped in attributes; a space is never literal because "
+             "white space delimits the argument / separates 'extends' entries -, or alternately literal and encoded "
+             "counted over the whole reference, directory part included); the first spelling runs all four variants, "
+             "the others the variants %r; all spellings denote the same file, so every way must load, give the "
+             "constructed tree and agree; URLs reported for literally written URLs / references are judged for "
+             "'file:///' form and target only.  "
+             "non-trivial = name with a character that must be percent-encoded.  (b2) directory name and file stem "
+             "vary independently: every ordered pair of different 1-character names (%d pairs) x kinds x %d layouts "
+             "(%s) x cwd in %r x every distinct spelling x all ways, variants %r.  (c) one schema extending TWO base "
              "schemas in different directories (all 6 ordered pairs of same / sub / parent) with decoys of the same "
              "file names elsewhere, every 1-character name, 3 working directories, the same ways of naming the top.  states = (kind, layout, "
-             "name, cwd) tuples, transitions = loads through the public API."
+             "name(s), cwd) tuples, transitions = loads through the public API."
              % (n, "".join(ALPHABET), m, SCHEME_CASES, BASES, KINDS, len(nm), namelen,
-                "".join(NAME_ALPHABET), len(lay), CWDS, WAYS),
+                "".join(NAME_ALPHABET), len(lay), CWDS, WAYS, MODES, list(EXTRA_MODE_VARIANTS),
+                len(pairs), len(pair_lay),
+                "top at depth %d" % PAIR_TOP_DEPTH if tier == "quick" else "all", pair_cwds, list(pair_variants)),
         bounds={"a_alphabet": ALPHABET, "a_max_len": n, "a_bases": BASES, "a_scheme_spellings": SCHEME_CASES, "a_file_prefixed_max_len": m,
                 "b_name_alphabet": NAME_ALPHABET, "b_name_max_len": namelen, "b_names": len(nm),
                 "b_layouts": len(lay), "b_kinds": KINDS, "b_cwds": CWDS, "b_ways": WAYS,
-                "b_max_dir_levels": MAXDEPTH},
+                "b_max_dir_levels": MAXDEPTH,
+                "b_reference_spellings": MODES, "b_variants_first_spelling": list(VARIANTS),
+                "b_variants_other_spellings": list(EXTRA_MODE_VARIANTS),
+                "b2_name_pairs": len(pairs), "b2_layouts": len(pair_lay), "b2_cwds": pair_cwds,
+                "b2_variants": list(pair_variants), "b2_reference_spellings": MODES},
         assumptions=[
             "POSIX file system with UTF-8 file names (the Windows drive-letter rule is exercised through "
             "isPath/normalizeURL only)",
@@ -707,7 +857,9 @@ def run(tier):
             "that themselves carry the scheme 'file', the case of the scheme, how many characters beyond "
             "the mandatory ones are percent-encoded, the number of leading slashes of a path",
             "the url of schema errors may be None (documented); when present it must be the 'file:///' URL",
-            "references inside files are written percent-encoded (they are URL references)"])
+            "references inside files are URL references: written percent-encoded, or with the URL-neutral "
+            "characters of the name alphabet (all but the space) literal; a literal space in a reference "
+            "is outside the explored space"])
     root = tempfile.mkdtemp(prefix="vz-c18-", dir="/dev/shm")
     try:
         plen = 2
@@ -722,6 +874,11 @@ def run(tier):
         else:
             bshards = [(root, i, name, KINDS) for i, name in enumerate(nm)]
         core.pmap(shard_layouts, bshards, run.acc)
+        b_states = run.acc.states
+        popts = {"prefix": "p", "layouts": pair_lay, "cwds": pair_cwds, "variants": pair_variants,
+                 "extra_variants": pair_variants}
+        core.pmap(shard_layouts, [(root, i, f, KINDS, dict(popts, dname=d)) for i, (d, f) in enumerate(pairs)],
+                  run.acc)
         cnames = names(1)
         core.pmap(shard_extends_multi, [(root, i, nme) for i, nme in enumerate(cnames)], run.acc)
     finally:
@@ -731,9 +888,12 @@ def run(tier):
     extra = sum((len(SCHEME_CASES) + (1 if 5 + k > n else 0)) * len(ALPHABET) ** k for k in range(m + 1))
     run.require(a_ev == expected_strings + extra,
                 "part (a) explored %d strings, expected %d" % (a_ev, expected_strings + extra))
-    run.require(acc.states == len(nm) * len(lay) * len(KINDS) * len(CWDS),
+    run.require(b_states == len(nm) * len(lay) * len(KINDS) * len(CWDS),
                 "part (b) explored %d states, expected %d" % (
-                    acc.states, len(nm) * len(lay) * len(KINDS) * len(CWDS)))
+                    b_states, len(nm) * len(lay) * len(KINDS) * len(CWDS)))
+    b2_expected = len(pairs) * len(pair_lay) * len(KINDS) * len(pair_cwds)
+    run.require(acc.states - b_states == b2_expected,
+                "part (b2) explored %d states, expected %d" % (acc.states - b_states, b2_expected))
     for k in ("url:scheme", "path:drive-letter", "path:colon-but-no-scheme", "normalize:single-slash",
               "normalize:already-normal", "defrag:split-then-normalize", "join:rfc3986-5.2",
               "normalizeURL:url-with-fragment", "normalizeURL:path:drive-letter",
@@ -741,9 +901,32 @@ def run(tier):
         run.require(acc.clauses.get(k, 0) > 0, "reference clause %s never decided" % k)
     for kind in KINDS:
         run.require(acc.classes.get("b:%s:good:ok" % kind, 0) > 0, "no successful %s load" % kind)
+    # wave-2 axes really exercised
+    total_states = b_states + b2_expected
+    run.require(acc.extra.get("b:spelling:" + BASE_MODE, 0) == total_states,
+                "the first spelling ran in %d of %d states" % (acc.extra.get("b:spelling:" + BASE_MODE, 0), total_states))
+    for mode in MODES[1:]:
+        run.require(acc.extra.get("b:spelling:" + mode, 0) >= 100,
+                    "reference spelling %s gave a distinct text in only %d states"
+                    % (mode, acc.extra.get("b:spelling:" + mode, 0)))
+        for kind in KINDS:
+            run.require(acc.classes.get("b:%s:good[%s]:ok" % (kind, mode), 0) > 0,
+                        "no successful %s load with references spelled %s" % (kind, mode))
+        for variant in EXTRA_MODE_VARIANTS:
+            if variant != "good":
+                run.require(acc.clauses.get("b:fragment-rejected[%s]" % mode, 0) > 0,
+                            "variant %s never judged for spelling %s" % (variant, mode))
+    for way in WAYS:
+        run.require(acc.extra.get("b:ok:way:" + way, 0) >= 1000, "way %s: only %d successful loads of the good tree"
+                    % (way, acc.extra.get("b:ok:way:" + way, 0)))
+    for k in ("b:ok:literal-non-ascii-ref-in-file-below-encoded-dir", "b:ok:ref-mixing-literal-non-ascii-and-pct",
+              "b:ok:dir-name-differs-from-file-stem"):
+        run.require(acc.extra.get(k, 0) >= 500, "class %s: only %d successful loads" % (k, acc.extra.get(k, 0)))
     run.notes["part_a_strings"] = a_ev
-    run.notes["part_b_states"] = acc.states
+    run.notes["part_b_states"] = b_states
+    run.notes["part_b2_states"] = acc.states - b_states
     run.notes["part_b_loads"] = acc.transitions
+    run.notes["part_b_spelled_cases"] = {m_: acc.extra.get("b:spelling:" + m_, 0) for m_ in MODES}
     return run
 
 
@@ -762,9 +945,11 @@ def replay(body):
                     check_string(case["s"], acc, _loader(), cwd, U)
                 finally:
                     os.chdir(old)
+            elif "base1" in case:
+                shard_extends_multi((root, i, case["name"]), acc)
             else:
                 base = os.path.join(root, "r%d" % i)
-                tree = Tree(base, case["name"])
+                tree = Tree(base, case["name"], case.get("dname"))
                 check_state(tree, case["kind"], tuple(case["layout"]), case["cwd"], acc, config_schema())
     finally:
         os.chdir(old)
